@@ -22,7 +22,9 @@ CONSTANTS MaxOps,        \* length of a behaviour
           ImportsOf,     \* content id -> set of module paths it imports
           InitTreesC,    \* initial trees
           Universe,      \* the paths behaviours may touch (a subset of Paths)
-          AllowExternal  \* BOOLEAN
+          AllowExternal, \* BOOLEAN
+          ForgetOnStructure  \* BOOLEAN: concluded data is forgotten whenever a resource is created,
+                             \* moved or removed and on validate (rope since 31fdd1f); FALSE = pinned rope
 
 NotCached  == -5
 \* indicators are sets of <<path, value>> pairs so that any two are comparable
@@ -105,6 +107,9 @@ ChangedBy(p)  == { x \in {p} : Watched(watch, x) } \cup { Parent(x) : x \in { y 
 RemovedBy(p)  == { x \in Paths : Watched(watch, x) /\ IsPrefix(p, x) }
 ParentOf(p)   == { Parent(x) : x \in { y \in {p} : ParentWatched(watch, y) } }
 
+\* PyCore._project_structure_changed: forget_all_data()
+Structural(c) == IF ForgetOnStructure THEN [p \in Paths |-> NoConcl] ELSE c
+
 Act(name, l) == [act |-> name, leaf |-> l, tree |-> {}]
 TreePairs(t) == { <<p, t[p]>> : p \in {q \in Paths : t[q] # Absent} }
 
@@ -123,16 +128,16 @@ RopeMutate(l) ==
                /\ UNCHANGED <<filesValid, cachedFiles>>
           [] l.k \in {"CF", "CD"} ->
                LET r == Perform(t2, ParentOf(l.p), {}, { x \in {l.p} : Watched(watch, x) }) IN
-               /\ src' = r.s /\ concl' = r.c /\ watch' = r.w
+               /\ src' = r.s /\ concl' = Structural(r.c) /\ watch' = r.w
                /\ filesValid' = FALSE /\ UNCHANGED cachedFiles
           [] l.k = "RM" ->
                LET r == Perform(t2, ParentOf(l.p), RemovedBy(l.p), {}) IN
-               /\ src' = r.s /\ concl' = r.c /\ watch' = r.w
+               /\ src' = r.s /\ concl' = Structural(r.c) /\ watch' = r.w
                /\ filesValid' = FALSE /\ UNCHANGED cachedFiles
           [] l.k = "MV" ->
                LET r == Perform(t2, ParentOf(l.p) \cup ParentOf(l.q), RemovedBy(l.p),
                                 { x \in {l.q} : Watched(watch, x) }) IN
-               /\ src' = r.s /\ concl' = r.c /\ watch' = r.w
+               /\ src' = r.s /\ concl' = Structural(r.c) /\ watch' = r.w
                /\ filesValid' = FALSE /\ UNCHANGED cachedFiles
   /\ trail' = Append(trail, Act("rope", l))
   /\ rootsSeen' = rootsSeen \cup {Roots(LeafApply(tree, l))}
@@ -163,7 +168,7 @@ Validate ==
          changed == changed0 \cup { Parent(x) : x \in { y \in changed0 \cup gone : ParentWatched(watch, y) } }
          created == { p \in Paths : Watched(watch, p) /\ Present(tree, p) /\ watch[p] = NoneInd }
          r == Perform(tree, changed \ removed, removed, created)
-     IN /\ src' = r.s /\ concl' = r.c /\ watch' = r.w
+     IN /\ src' = r.s /\ concl' = Structural(r.c) /\ watch' = r.w
   /\ filesValid' = FALSE
   /\ ext' = {}
   /\ trail' = Append(trail, Act("validate", Leaf("-", NoPath, NoPath, 0)))
@@ -246,7 +251,7 @@ SourceCoherent == Quiet => \A p \in Paths : Cached(p) => (Present(tree, p) /\ sr
 \* module was missing stay cached.  Positive resolutions must never be stale:
 InferNoStalePositive ==
   Quiet => \A p \in FilePaths : (Cached(p) /\ concl[p] # NoConcl) => concl[p] \subseteq Resolved(tree, src[p])
-\* full coherence (refuted on the model, see StaleNegative: the known gap)
+\* full coherence: holds with ForgetOnStructure, refuted without it (StaleNegative)
 ImportsCoherent ==
   Quiet => \A p \in FilePaths : (Cached(p) /\ concl[p] # NoConcl) => concl[p] = Resolved(tree, src[p])
 \* modules whose inferred data predates the creation of a module they import
